@@ -442,6 +442,9 @@ def r5_abort(ctx):
                             f'`{nm}.done()` polled by the worker loop belongs to a thread-side future (not loop.run_in_executor): it can flip between the `empty()` and `done()` checks and a worker exits with the last chunk still queued',
                         )
     r5b_completion_flag(ctx, 'C09.R5')
+    from .shared import queue_put_retries_until_done
+
+    queue_put_retries_until_done(ctx, 'C09.R5')
     # the polling loop of a worker ends when the producer is through, however the producer ended: its exit decision reads
     # the producer's completion (the future / an Event set in a `finally`), not only what the producer managed to queue
     n_poll = 0
